@@ -117,6 +117,9 @@ func genScenario(r *Rng, maxMsgs, maxRcpts int) *SmtpScenario {
 				m.FailVia = []string{"", "seeker", "seeker-eof", "sign", "fs-gone"}[r.Intn(5)]
 			}
 		}
+		if r.Chance(10) {
+			m.AttachBytes = []int{1, 100, 5000, 70000}[r.Intn(4)]
+		}
 		m.ToViaAdd = len(m.To) > 1 && r.Chance(35)
 		if r.Chance(20) {
 			m.Body = string(genBody(r, genLen(r, 6000)))
@@ -228,6 +231,46 @@ func oracleLegal(c *Ctx, sc *SmtpScenario, run *SmtpRun) {
 		}
 		c.Violate(cls, p, sc)
 	}
+	// DATA only when EVERY recipient of the message was accepted: the recipients the caller set (expected
+	// envelope, computed from the scenario) must all have been offered before DATA is sent
+	if run.Stage != "dial" && run.CheckErr == nil {
+		adv8 := advertisedExt(run.Events)["8BITMIME"]
+		dialogues := splitPerMessage(run.Events)
+		di := 0
+		for i, m := range run.Msgs {
+			if i >= len(sc.Msgs) {
+				break
+			}
+			sm := sc.Msgs[i]
+			if (sm.From == "" && sm.EnvFrom == "") || len(m.AllRcpts) == 0 || (sm.EightBit && !adv8) || hasCtl(m.Sender) {
+				continue // refused locally: never on the wire
+			}
+			if di >= len(dialogues) {
+				break
+			}
+			d := dialogues[di]
+			di++
+			offered, dataSent := 0, false
+			for k, st := range d.step {
+				if st == "RCPT" {
+					offered++
+				}
+				if st == "DATA" {
+					dataSent = true
+					_ = k
+				}
+			}
+			want := 0
+			for _, rc := range m.AllRcpts {
+				if !hasCtl(rc) {
+					want++
+				}
+			}
+			if dataSent && offered < want {
+				c.Violate("c04-data-without-all-recipients", fmt.Sprintf("message %d has %d recipients, DATA was sent after only %d RCPT commands", i, want, offered), sc)
+			}
+		}
+	}
 	// 8bit messages are refused locally when 8BITMIME is missing
 	has8 := advertisedExt(run.Events)["8BITMIME"]
 	if !has8 {
@@ -292,6 +335,7 @@ func init() {
 						for mi := range sc3.Msgs {
 							sc3.Msgs[mi].Body = ""
 							sc3.Msgs[mi].BigBody = []int{0, 300 << 10, 1 << 20}[c.Rng.Intn(3)]
+							sc3.Msgs[mi].AttachBytes = []int{0, 0, 300 << 10, 3 << 20}[c.Rng.Intn(4)]
 						}
 						run3 := runAndCompare(c, &sc3, "deaf@DATA")
 						if run3 != nil && run3.Panic == nil {
